@@ -292,11 +292,22 @@ def gm_iter(ctx):
     return ctx.ret(It('gmap', m, (r, mode), 0))
 def _gmap_pull(eng, st, fr, it, cont):
     m = it.a; (r, mode) = it.b; i = it.c
+    def item_of(i):
+        kr = Ref(r.base, r.path + (('i', i), 0)); vr = Ref(r.base, r.path + (('i', i), 1))
+        return kr if mode == 'keys' else vr if mode == 'values' else Agg((kr, vr))
+    if m.hashed and getattr(eng, 'hash_order_symbolic', False):
+        # std HashMap: the iteration order is unspecified - every order of the present entries is explored (it.c = indices already yielded)
+        done = i if isinstance(i, tuple) else ()
+        rest = [j for j in range(len(m.entries)) if j not in done]
+        alts = [(And([Not(m.entries[j][0]) for j in rest]) if rest else BoolVal(True), lambda s2, f2: cont(s2, f2, None, it))]
+        for j in rest:
+            def go(s2, f2, j=j):
+                s2.trace.append(('hash-order', j)); return cont(s2, f2, item_of(j), It('gmap', m, it.b, done + (j,)))
+            alts.append((m.entries[j][0], go))
+        return ('forks', alts)
     if i >= len(m.entries): return cont(st, fr, None, it)
     l, k, v = m.entries[i]; nxt = It('gmap', m, it.b, i + 1)
-    kr = Ref(r.base, r.path + (('i', i), 0)); vr = Ref(r.base, r.path + (('i', i), 1))
-    item = kr if mode == 'keys' else vr if mode == 'values' else Agg((kr, vr))
-    return ('forks', [(l, lambda s2, f2: cont(s2, f2, item, nxt)), (Not(l), lambda s2, f2: _gmap_pull(eng, s2, f2, nxt, cont))])
+    return ('forks', [(l, lambda s2, f2: cont(s2, f2, item_of(i), nxt)), (Not(l), lambda s2, f2: _gmap_pull(eng, s2, f2, nxt, cont))])
 
 def _front(pattern, fn):
     from .models import MODELS
